@@ -562,8 +562,8 @@ func writeEvidence(id, tier string, seed int64, spec CheckSpec, results []*harne
 				solverQueries[n] += r.E.solverQueries[n]
 			}
 			for i, sm := range r.E.samples {
-				if i < 2 {
-					samples = append(samples, map[string]any{"harness": r.Spec.Entry, "decisions": sm.Decisions, "path_condition_conjuncts": sm.PCSize, "assertions_on_path": sm.Asserts})
+				if i < 4 {
+					samples = append(samples, map[string]any{"harness": r.Spec.Entry, "decisions": sm.Decisions, "path_condition_conjuncts": sm.PCSize, "assertions_on_path": sm.Asserts, "one_model_of_the_path_condition_as_harness_inputs": sm.Rendered})
 				}
 			}
 			for k := range r.E.used {
